@@ -19,7 +19,7 @@ RULE = ("all labelled graphs <= 4 vertices x num_regions 1..3 x all labelings in
         "one evaluation = one solve vs definition; distinct by (graph, labeling, flags, roots, form)")
 ASSUMPTIONS = ["z3 decides the posted program correctly (SAT re-validated by M-SOLVE)",
                "labels outside 0..num_regions-1 are outside the statement and not generated"]
-REQUIRED = ["div.winding_boards", "div.long_paths", "div.cases", "div.want.valid", "div.want.invalid", "div.roots", "div.allow_empty", "div.primitive", "div.grid",
+REQUIRED = ["div.kind.loops", "div.kind.linegraph", "div.kind.longroots", "div.roots_longer_than_num_regions", "div.winding_boards", "div.long_paths", "div.cases", "div.want.valid", "div.want.invalid", "div.roots", "div.allow_empty", "div.primitive", "div.grid",
             "div.form.list", "div.form.const", "div.form.array", "div.accepted_set_solves", "msolve.model_checked", "mwire.exchanges"]
 
 
@@ -27,13 +27,13 @@ def plan(tier):
     return {"shards": 16}
 
 
-def one(ctx, n, edges, labels, k, allow_empty, roots, prim, form, be, grid=None):
+def one(ctx, n, edges, labels, k, allow_empty, roots, prim, form, be, grid=None, gobj=None):
     """One pointwise case.  form: 'array' | 'list' | 'const' | 'expr'."""
     s = cspuz.Solver()
     desc = {"n": n, "edges": [list(e) for e in edges], "grid": grid, "labels": list(labels), "k": k, "allow_empty": allow_empty,
             "roots": roots, "primitive": prim, "form": form}
     ctx.current_case = {"tag": "div", "desc": desc}
-    if grid is None:
+    if grid is None and gobj is None:
         edges = D.scramble(ctx.rng, edges)
         desc["edges"] = [list(e) for e in edges]
     vs = [s.int_var(0, k - 1) for _ in range(n)]
@@ -61,7 +61,7 @@ def one(ctx, n, edges, labels, k, allow_empty, roots, prim, form, be, grid=None)
             else:
                 graph.division_connected(s, arr, k, roots=roots2, allow_empty_group=allow_empty)
         else:
-            g = D.mk_graph(n, edges)
+            g = gobj if gobj is not None else D.mk_graph(n, edges)
             d = IntArray1D(div) if form == "array" else div
             if prim:
                 old = cspuz.config.use_graph_primitive
@@ -220,6 +220,50 @@ def run(ctx):
             cutv = order[n // 2]
             one(ctx, n, edges, [1 if v == cutv else 0 for v in range(n)], 2, False, [order[-1], None], False, "list", be, None)
         ctx.count("div.long_paths")
+    # self-loops (irrelevant for the connectivity of a class), Graph objects made by Graph.line_graph(), roots lists longer than
+    # num_regions (a vertex listed at a position no label can take makes the constraint unsatisfiable; trailing None entries are inert)
+    for t in range(8 if not thorough else 120):
+        kind = ["loops", "linegraph", "longroots"][t % 3]
+        gobj = None
+        if kind == "linegraph":
+            r = D.line_graph_object(rng)
+            if r is None:
+                ctx.count("div.line_graph_object_disagrees")
+                continue
+            gobj, n, edges = r
+        else:
+            n = rng.randint(2, 5)
+            edges = [e for e in itertools.combinations(range(n), 2) if rng.random() < 0.6]
+            if kind == "loops":
+                edges = D.with_loops(rng, n, edges)
+        k = rng.randint(1, 3)
+        for _ in range(6):
+            if rng.random() < 0.6:
+                # grow k classes from seeds along the edges (valid labelings are frequent), else random
+                adj = G.adjacency(n, [e for e in edges if e[0] != e[1]])
+                labels = [None] * n
+                for i, sd in enumerate(rng.sample(range(n), min(k, n))):
+                    labels[sd] = i
+                while None in labels:
+                    cand = [x for x in range(n) if labels[x] is None and any(labels[y] is not None for y in adj[x])]
+                    if not cand:
+                        for x in range(n):
+                            if labels[x] is None:
+                                labels[x] = rng.randrange(k)
+                        break
+                    v = rng.choice(cand)
+                    labels[v] = labels[rng.choice([y for y in adj[v] if labels[y] is not None])]
+            else:
+                labels = [rng.randrange(k) for _ in range(n)]
+            roots = None
+            if kind == "longroots" or rng.random() < 0.3:
+                roots = [rng.choice([None, rng.randrange(n)]) for _ in range(k)]
+                if kind == "longroots":
+                    roots += [rng.choice([None, None, rng.randrange(n)]) for _ in range(rng.randint(1, 2))]
+                    ctx.count("div.roots_longer_than_num_regions")
+            with ctx.guard(120):
+                one(ctx, n, edges, labels, k, rng.random() < 0.4, roots, False, rng.choice(["array", "list"]), be, None, gobj=gobj)
+            ctx.count("div.kind." + kind)
     if thorough or ctx.shard == 0:
         for allow in (False, True):
             oset = {p for p in itertools.product(range(2), repeat=6) if G.classes_connected(6, G.grid_edges(2, 3), p, 2, allow)}
